@@ -210,8 +210,30 @@ def make_case(dag, cid, base, special, rnd, virtual_root=False):
     os.makedirs(d, exist_ok=True)
     dirname = {"cur": "", "inc": SPECIAL_DIRS["inc"] if special else "inc",
                "sys": SPECIAL_DIRS["sys"] if special else "sys"}
+    alpha = {}
+    if special == "alpha":
+        # names over the alphabet of MC_DepEscape (Alpha7, E = a non-ASCII letter) without the backslash
+        # (`clang -M`, the oracle for the model, rewrites some backslashes; the fixed SPECIAL names cover
+        # them): runs of spaces, leading blanks, '#', '$', ':' in any position
+        used = set()
+
+        def draw():
+            while True:
+                k = rnd.randint(2, 5)
+                w = "".join(rnd.choice(["a", " ", " ", "#", "$", ":", "\u00e9"]) for _ in range(k))
+                if w not in used and w.strip(" ") and w not in (".", ".."):
+                    used.add(w)
+                    return w
+        dirname["inc"], dirname["sys"] = draw(), draw()
+        # (the target ends at the first ':' in the dep-info grammar; the property promises escaping of
+        # spaces and backslashes only, and MC_DepEscape quantifies targets over NoColon)
+        alpha["out"] = draw().replace(":", "a") + ".rs"
 
     def fname(name):
+        if special == "alpha":
+            if name not in alpha:
+                alpha[name] = draw() + ".h"
+            return alpha[name]
         return SPECIAL[name] if special else name + ".h"
 
     rel, text = {}, {}
@@ -234,7 +256,9 @@ def make_case(dag, cid, base, special, rnd, virtual_root=False):
                 nm = fname(dv["name"])
                 spelled = '"%s"' % nm if dv["form"] == "q" else "<%s>" % nm
                 if dv["active"]:
-                    style = rnd.choice(["plain", "plain", "if1", "macro", "hasinc"])
+                    # (a macro-expanded <...> is re-spelled token by token: runs of blanks would not survive)
+                    style = rnd.choice(["plain", "plain", "if1", "hasinc"] if special == "alpha" else
+                                       ["plain", "plain", "if1", "macro", "hasinc"])
                     if style == "plain":
                         lines.append("#include %s" % spelled)
                     elif style == "if1":
@@ -280,7 +304,8 @@ def make_case(dag, cid, base, special, rnd, virtual_root=False):
         features.add("repeated-inclusion")
     return {"id": cid, "dir": d, "rel": rel, "text": text, "dag": dag, "special": special,
             "clang_args": clang_args, "roots": dag["roots"], "pre": pre,
-            "out": "o ut.rs" if special else "out.rs", "features": features, "virtual_root": virtual_root}
+            "out": alpha.get("out") or ("o ut.rs" if special else "out.rs"), "features": features,
+            "virtual_root": virtual_root}
 
 
 def norm(case, p):
@@ -755,6 +780,8 @@ def run(res, tier):
         sel = pick(dags, n, rnd)
         for i, dag in enumerate(sel):
             special = rnd.random() < (0.5 if thorough else 0.35)
+            if special and rnd.random() < 0.5:
+                special = "alpha"
             virtual = (tag != "ai") and rnd.random() < 0.12
             cases.append(make_case(dag, "%s-%04d" % (tag, i), base, special, rnd, virtual_root=virtual))
     res.add(states=gst, transitions=gtr, dags_enumerated=enumerated, dags_materialised=len(cases),
